@@ -15,7 +15,13 @@ RULE = ("prof: request sequences (a:size:align:ret alloc, z:size:align:ret alloc
         "boolean specification is evaluated on the harness output (log = requests, returned = scripted). Generators: heap-like "
         "(realloc/dealloc of pointers that were returned earlier, same layout) and arbitrary; sizes 0..2^40 (boundary stream: up to "
         "isize::MAX - (align-1), new_size up to 2^64-1, where the debug build's tally panics and the model says so), alignments "
-        "2^0..2^12, lengths 0..400. churn (tested, not proved): a second binary whose #[global_allocator] is "
+        "2^0..2^12, lengths 0..400; answers are null (1 in 6), aligned addresses, or - about 1 in 4 - sentinel / odd / under-aligned "
+        "values (1, 3, base+1, base+3, base+align/2, 2^47-1, 2^64-1), which must be passed through unchanged too. nest: forests of "
+        "requests (depth-annotated pre-order): ReMock, while serving a request, issues the scripted nested requests through the "
+        "profiler wrapping it or a second AllocProfiler<ReMock> instance (nested requests are alloc/alloc_zeroed of 0..4096 bytes; "
+        "top-level ones any kind, sizes up to 2^40), depth up to 5; its log must be the pre-order of the forest, every requester "
+        "(harness or ReMock) must get ReMock's answer, the tally that of the pre-order sequence (non-trivial = at least one nested "
+        "request). churn (tested, not proved): a second binary whose #[global_allocator] is "
         "Outer<AllocProfiler<Inner<System>>>, both layers logging enter/exit events into one fixed ring from the first allocation of "
         "the process on; after thread spawn/exit churn (some threads leave by unwinding) with allocation from TLS destructors the ring "
         "must be, per thread, groups outer-enter inner-enter inner-exit outer-exit of one method with equal arguments and results (no "
@@ -60,10 +66,16 @@ def align(rng):
 
 
 def answer(rng, al, fresh):
-    if rng.random() < 0.17:
+    """What the wrapped allocator answers: null, an aligned address, or - the mock never touches memory, so any
+    usize is a legitimate answer to pass through - a sentinel / odd / under-aligned address."""
+    k = rng.random()
+    if k < 0.17:
         return 0
     fresh[0] += 1
-    return (0x100000 + fresh[0] * 8192) // al * al or al
+    base = (0x100000 + fresh[0] * 8192) // al * al or al
+    if k < 0.40:
+        return rng.choice([1, 3, base + 1, base + 3, base + al // 2 if al > 1 else base + 1, 2**47 - 1, 2**64 - 1])
+    return base
 
 
 def gen_seq(rng, n, boundary=False):
@@ -121,6 +133,7 @@ def length(rng):
 
 
 FIXED = [
+    "a:0:2:1", "z:0:4096:1", "a:7:8:1048579", "r:4096:16:16:32:8195", "a:64:64:18446744073709551615",
     "", "a:0:1:0", "a:5:8:4096", "z:5:8:4096", "z:0:4096:0", "d:0:0:1", "d:4096:5:8", "r:4096:5:8:5:0", "r:4096:5:8:0:4096",
     "a:5:8:4096 z:0:1:0 r:4096:5:8:77:0 d:4096:5:8", "r:4096:100:16:200:0 r:4096:100:16:200:8192 d:8192:200:16",
     "a:1099511627776:4096:0 a:1099511627776:4096:1048576 r:1048576:1099511627776:4096:0:0 d:1048576:1099511627776:4096",
@@ -175,6 +188,74 @@ def nt_prof(c, m):
     return m.startswith("log=") and len(kinds) >= 2 and nulls
 
 
+
+def gen_nest(rng, flag, n):
+    """Forests of requests: the wrapped allocator issues nested requests through a profiler while serving one."""
+    fixed = [
+        "0:p:a:100:8:4096 1:q:z:24:8:1 2:p:d:77:8:1 1:p:r:1:24:8:48:0 0:p:d:4096:100:8",
+        "0:p:a:64:8:4096 1:p:a:16:8:8192",                      # nested alloc through the same instance
+        "0:p:a:64:8:4096 1:q:a:16:8:8192",                      # ... through a second instance
+        "0:p:z:64:8:4096 1:p:z:16:8:0",
+        "0:p:d:4096:64:8 1:p:a:24:8:12288",
+        "0:p:r:4096:64:8:128:8192 1:p:a:128:8:8192",
+        "0:q:a:8:1:3 1:p:a:8:2:5 2:q:a:8:4:7 3:p:a:8:8:9",
+        "0:p:a:5:1:4096 0:p:a:6:1:8192",
+    ]
+    cases = [f"{flag} {c}" for c in fixed]
+    while len(cases) < n:
+        fresh = [rng.randrange(1 << 20)]
+        toks = []
+
+        def node(depth, budget):
+            al = align(rng)
+            k = rng.random()
+            # nested requests stay small and never free or resize a made-up block (a broken profiler that hands them to the
+            # system allocator must not take the harness down before the mismatch is reported)
+            s_ = size(rng) if depth == 0 else rng.randrange(0, 4097)
+            via = rng.choice("pq")
+            if depth > 0 or k < 0.55:
+                kind = "z" if rng.random() < 0.35 else "a"
+                toks.append(f"{depth}:{via}:{kind}:{s_}:{al}:{answer(rng, al, fresh)}")
+            elif k < 0.8:
+                toks.append(f"{depth}:{via}:d:{rng.choice([1, 4096, rng.getrandbits(40)])}:{s_}:{al}")
+            else:
+                toks.append(f"{depth}:{via}:r:{rng.choice([1, 4096, rng.getrandbits(40)])}:{s_}:{al}:{size(rng)}:{answer(rng, al, fresh)}")
+            kids = 0
+            while budget[0] > 0 and depth < 5 and rng.random() < (0.55 if depth == 0 else 0.35) and kids < 4:
+                budget[0] -= 1
+                kids += 1
+                node(depth + 1, budget)
+
+        budget = [rng.randrange(0, 14)]
+        for _ in range(rng.randrange(1, 6)):
+            node(0, budget)
+        cases.append(flag + " " + " ".join(toks))
+    return cases
+
+
+def nest_hist(cases):
+    h = {"forests": 0, "requests": 0, "nested requests": 0, "max depth 0": 0, "max depth 1": 0, "max depth 2+": 0,
+         "nested via the same instance": 0, "nested via the second instance": 0}
+    for c in cases:
+        toks = [t for t in c.split(" ")[1:] if t]
+        h["forests"] += 1
+        h["requests"] += len(toks)
+        md = 0
+        for t in toks:
+            d, via = t.split(":")[:2]
+            d = int(d)
+            md = max(md, d)
+            if d > 0:
+                h["nested requests"] += 1
+                h["nested via the same instance" if via == "p" else "nested via the second instance"] += 1
+        h["max depth 0" if md == 0 else "max depth 1" if md == 1 else "max depth 2+"] += 1
+    return h
+
+
+def nt_nest(c, m):
+    return m.startswith("log=") and any(t.split(":")[0] != "0" for t in c.split(" ")[1:] if t)
+
+
 def run_global(st, hbin):
     """One process per case: `hx-alloc-global <threads> <rounds> <seed>`."""
     gbin = os.path.join(os.path.dirname(hbin), "hx-alloc-global")
@@ -219,7 +300,13 @@ def streams(tier, rng):
                                                       for _ in range(36 if q else 400)]
     churn_r = ["1 2 9", "8 10 5"] + [f"{rng.choice([2, 4, 8])} {rng.randrange(4, 25)} {rng.getrandbits(32)}" for _ in range(18 if q else 200)]
     nt_churn = lambda c, m: int(c.split(" ")[0]) >= 2
+    nest_d = gen_nest(rng, "D", 500 if q else 12000)
+    nest_r = gen_nest(rng, "R", 200 if q else 5000)
     return [
+        Stream("reentrant-mock-debug", "nest", nest_d, nontrivial=nt_nest, hist=nest_hist(nest_d),
+               describe="the wrapped allocator issues scripted nested requests through a profiler (same or second instance) while "
+                        "serving a request; its log must be the pre-order of the forest, every requester gets its answer"),
+        Stream("reentrant-mock-release", "nest", nest_r, nontrivial=nt_nest, release=True, hist=nest_hist(nest_r)),
         Stream("profiler-around-mock-debug", "prof", prof_d, nontrivial=nt_prof, hist=hist(prof_d)),
         Stream("profiler-around-mock-release", "prof", prof_r, nontrivial=nt_prof, release=True, hist=hist(prof_r)),
         Stream("profiler-around-mock-boundary-debug", "prof", bound_d, nontrivial=nt_prof, hist=hist(bound_d),
@@ -271,9 +358,12 @@ MANIFEST = {
             "tally slot: the calls reaching the wrapped allocator are exactly the requests (same method, layout, pointer, new_size, "
             "order; one per request) and the caller gets exactly its answers; C09_tally_independent (the tally is a function of the "
             "requests alone: the code tallies before the inner call, failed or not); C09_panic_only_from_tally, C09_release_total, "
-            "C09_no_slot_total, C09_guarded_total. This logic core is near-definitional; the weight is on the correspondence: the real "
+            "C09_no_slot_total, C09_guarded_total, C09_forwarded_prefix (what was forwarded before a debug tally panic is exactly the first "
+            "k requests), C09_nested_transparent (re-entrant wrapped allocator: for every forest of requests the wrapped allocator "
+            "receives exactly the pre-order, nested requests included, and every requester gets its answer). This logic core is near-definitional; the weight is on the correspondence: the real "
             "AllocProfiler around a mock that logs every call and answers from a script (null about 1 in 6), sizes 0..2^40 and up to "
-            "isize::MAX, alignments 1..4096, compared op by op with the model and judged by the extracted specification. The clause "
+            "isize::MAX, alignments 1..4096, answers including sentinel / odd / under-aligned values, and a re-entrant mock that issues "
+            "nested requests through the same or a second profiler instance, compared op by op with the model and judged by the extracted specification. The clause "
             "'never allocates or re-enters itself, also on threads starting up or shutting down' is TESTED, NOT PROVED: "
             "Outer<AllocProfiler<Inner<System>>> as #[global_allocator] in a separate process, ring of enter/exit events from the "
             "first allocation on, thread churn, unwinding threads, TLS-destructor allocation, exit with live allocating threads.",
